@@ -283,6 +283,10 @@ NEUTRAL = [
             if byte < 0x80 {""")]),
     dict(id="N27-spilled-half-drained-by-while-let", file="crates/storage/src/key_of_set_map/cache.rs",
          edits=[("""                for item in spilled.half_constructed.by_ref() {""", """                while let Some(item) = spilled.half_constructed.next() {""")]),
+    dict(id="N28-read_raw_bytes-chunked-with-a-moving-start", file="crates/serialize/src/postcard.rs",
+         edits=[('        let mut buf = vec![0u8; len];\n        self.reader.read_exact(&mut buf)?;\n        Ok(buf)', '        const CHUNK: usize = 4096;\n        let mut buf = Vec::with_capacity(len.min(CHUNK));\n        let mut remaining = len;\n        while remaining > 0 {\n            let chunk = remaining.min(CHUNK);\n            buf.resize(buf.len() + chunk, 0);\n            let start = buf.len() - chunk;\n            self.reader.read_exact(&mut buf[start..])?;\n            remaining -= chunk;\n        }\n        Ok(buf)')]),
+    dict(id="N29-read_raw_bytes-chunked-through-a-scratch-buffer", file="crates/serialize/src/postcard.rs",
+         edits=[('        let mut buf = vec![0u8; len];\n        self.reader.read_exact(&mut buf)?;\n        Ok(buf)', '        const CHUNK: usize = 4096;\n        let mut tmp = [0u8; CHUNK];\n        let mut buf = Vec::with_capacity(len.min(CHUNK));\n        let mut remaining = len;\n        while remaining > 0 {\n            let chunk = remaining.min(CHUNK);\n            self.reader.read_exact(&mut tmp[..chunk])?;\n            buf.extend_from_slice(&tmp[..chunk]);\n            remaining -= chunk;\n        }\n        Ok(buf)')]),
 ]
 
 
